@@ -1,7 +1,7 @@
 // C01: feed a call sequence to the real AspifOutput, print the bytes, read them back with the real AspifInput
 // (modes 0/1), or read a given text, write what was delivered with AspifOutput and read that again (modes 2/3).
 // See coq/C01/Model.v for the case / observation layout.
-// Every other case (reuse::primed, a hash of the case) does each read with a reader OBJECT that has read an incremental text before.
+// Every other case (reuse::primed, a hash of the case) does each read with a reader OBJECT that has read (or refused) a primer text before, see reuse.h.
 #include "common.h"
 #include "c01_read.h"
 #include <potassco/match_basic_types.h>
@@ -19,7 +19,7 @@ static int writeCalls(Case& c, std::string& text) {
 int main() {
 	Case c; Obs o;
 	while (readCase(c)) {
-		const bool primed = reuse::primed(c);
+		const reuse::Primer* primed = reuse::primed(c) ? &reuse::aspifPrimer(c) : 0;
 		int mode = (int)c.next(); ll n = c.next();
 		if (n != Potassco::BufferedStream::BUF_SIZE) { o.add(-999); o.flush(); continue; }
 		std::string text;
